@@ -1,6 +1,7 @@
 package repository
 
 import (
+	"strings"
 	"bytes"
 	"context"
 	"crypto/sha256"
@@ -325,7 +326,7 @@ func TestVerifC02(t *testing.T) {
 							if fmt.Sprint(keys) != fmt.Sprint(truth[pk]) && s.Stats()["fault:load-misdirected"] == 0 {
 								r.Fail("content-address", "wrong-pack-listing", "ListPackHandles(%s) returned nil error and %d handles that differ from the %d blobs in the pack", pk[:8], len(keys), len(truth[pk]))
 							}
-						} else if nFaults() == fired0 && !(withCache && nFaults() > 0) && !(downMode && nFaults() > 0) {
+						} else if nFaults() == fired0 && !(withCache && nFaults() > 0) && !(downMode && nFaults() > 0) && !(withRetry && nFaults() > 0 && strings.Contains(lerr.Error(), "circuit breaker open")) {
 							r.Fail("no-error", "error-without-fault", "ListPackHandles failed without a corrupted read: %v", lerr)
 						}
 						continue
@@ -347,6 +348,10 @@ func TestVerifC02(t *testing.T) {
 					}
 					if downMode && nFaults() > 0 {
 						clean = false // the backend is down: any failure is justified (also one answered by the retry layer's circuit breaker)
+					}
+					if withRetry && err != nil && nFaults() > 0 && strings.Contains(err.Error(), "circuit breaker open") {
+						// the retry layer refuses a file for a while after it failed for good in an earlier operation
+						clean = false
 					}
 					if err != nil && clean {
 						r.Fail("no-error", "error-without-fault", "%s(%s %v) failed although no read was corrupted: %v", what, it.kind, it.id.Str(), err)
